@@ -28,12 +28,22 @@ package varutil
 // -- quoted run
 //@   loop 2 invariant len(args) >= 1 && rpos(reader) >= 0 && len(buf) == 1
 //@   loop 2 step deref(current) == prev(deref(current)) || deref(current) == cat(prev(deref(current)), sbyte(ch))
+// -- the quoted run is closed by an unescaped quote and by nothing else
+//@   loop 2 exit ch == '"' && !isEscaped
 // -- heredoc tag
 //@   loop 3 invariant len(args) >= 1 && rpos(reader) >= 0 && len(buf) == 1
 //@   loop 3 step eof == prev(eof) || eof == cat(prev(eof), sbyte(ch))
+// -- the tag line ends at its newline
+//@   loop 3 exit ch == '\n'
 // -- heredoc body
 //@   loop 4 invariant len(args) >= 1 && rpos(reader) >= 0 && len(buf) == 1
 //@   loop 4 step value == cat(prev(value), sbyte(rinput(payload(reader))[rpos(reader) - 1]))
+// -- the heredoc ends at the FIRST occurrence of the marker line: the body loop goes round again only
+// -- while the text read so far does not end with "\n"+marker (eof holds that sequence here)
+//@   loop 4 step !hassuffix(value, eof)
+// -- and it ends only there: on leaving the loop the text read ends with that sequence, which is cut off
+//@   loop 4 exit hassuffix(cat(prev(value), sbyte(rinput(payload(reader))[rpos(reader) - 1])), eof)
+//@   loop 4 exit value == sub(cat(prev(value), sbyte(rinput(payload(reader))[rpos(reader) - 1])), 0, len(prev(value)) + 1 - len(eof))
 
 //@ func SplitArguments [C17]
 
